@@ -6,6 +6,8 @@
 package main
 
 import (
+	"crypto/sha1"
+	"encoding/hex"
 	"encoding/json"
 	"fmt"
 	"go/ast"
@@ -216,6 +218,15 @@ func passes() {
 				}
 				// passes that begin with the "skip if there are errors" early return
 				body := exprString(p.Fset, fd.Body)
+				if fd.Recv == nil {
+					h, _ := res["bodyHash"].(map[string]string)
+					if h == nil {
+						h = map[string]string{}
+					}
+					sum := sha1.Sum([]byte(body))
+					h[fd.Name.Name] = hex.EncodeToString(sum[:])[:12]
+					res["bodyHash"] = h
+				}
 				if strings.Contains(body, "len(errorSink.Errors) > 0") && fd.Recv == nil {
 					l, _ := res["earlyReturn"].([]string)
 					res["earlyReturn"] = append(l, fd.Name.Name)
